@@ -612,14 +612,19 @@ func rulePad(c *Ctx) {
 		param int
 		field string
 	}
-	roles := map[string]slot{} // buf, width, printSign, padSign, padRight, padZero
+	roles := map[string]slot{} // buf, width, printSign, padSign, padRight, padZero and, optionally, start
 	pps := paramObjs(p, fd)
+	wholeBuf := false // the callers hand pad their whole buffer (not a sub-slice holding only the number)
 	if caller := c.fn("digits.fmtF"); caller != nil && caller.Body != nil {
 		cps := paramObjs(p, caller)
 		roleOf := map[types.Object]string{}
 		if len(cps) == 8 {
 			for i, r := range map[int]string{2: "width", 4: "printSign", 5: "padSign", 6: "padRight", 7: "padZero"} {
 				roleOf[cps[i]] = r
+			}
+			// a local that holds len(buf) as it was on entry marks where the number starts
+			for o := range entryLenLocals(p, caller, cps[0]) {
+				roleOf[o] = "start"
 			}
 		}
 		ast.Inspect(caller.Body, func(n ast.Node) bool {
@@ -631,6 +636,7 @@ func rulePad(c *Ctx) {
 				a = ast.Unparen(a)
 				if sl, ok := pps[i].Type().Underlying().(*types.Slice); ok && types.Identical(sl.Elem(), types.Typ[types.Byte]) {
 					roles["buf"] = slot{i, ""}
+					wholeBuf = len(cps) == 8 && p.objOf(a) == cps[0]
 					continue
 				}
 				if st, ok := pps[i].Type().Underlying().(*types.Struct); ok {
@@ -658,9 +664,69 @@ func rulePad(c *Ctx) {
 			return true
 		})
 	}
-	if len(roles) != 6 {
+	_, hasStart := roles["start"]
+	if len(roles) != 6 && !(len(roles) == 7 && hasStart) {
 		c.undecided("pad.shape", fd, "pad must receive the buffer, the width and the four flags of fmtF (buf, width, printSign, padSign, padRight, padZero)", props...)
 		return
+	}
+	// fmtE, the sibling emitter, must feed pad the same way: each role from its own parameter of that role,
+	// and the start (when pad takes one) from its own entry length.
+	if caller := c.fn("digits.fmtE"); caller != nil && caller.Body != nil {
+		cps := paramObjs(p, caller)
+		if len(cps) == 10 {
+			roleOf := map[types.Object]string{}
+			for i, r := range map[int]string{0: "buf", 2: "width", 4: "printSign", 5: "padSign", 7: "padRight", 8: "padZero"} {
+				roleOf[cps[i]] = r
+			}
+			for o := range entryLenLocals(p, caller, cps[0]) {
+				roleOf[o] = "start"
+			}
+			ncall := 0
+			ast.Inspect(caller.Body, func(n ast.Node) bool {
+				call, ok := n.(*ast.CallExpr)
+				if !ok || p.callee(call) == nil || p.callee(call) != p.Info.Defs[fd.Name] || len(call.Args) != len(pps) {
+					return true
+				}
+				ncall++
+				var wrong []string
+				for r, sl := range roles {
+					a := ast.Unparen(call.Args[sl.param])
+					if sl.field != "" {
+						cl, ok := a.(*ast.CompositeLit)
+						if !ok {
+							wrong = append(wrong, r)
+							continue
+						}
+						st, _ := pps[sl.param].Type().Underlying().(*types.Struct)
+						found := false
+						for j, el := range cl.Elts {
+							name, val := "", el
+							if kv, ok := el.(*ast.KeyValueExpr); ok {
+								name, val = kv.Key.(*ast.Ident).Name, kv.Value
+							} else if st != nil && j < st.NumFields() {
+								name = st.Field(j).Name()
+							}
+							if name == sl.field {
+								found = roleOf[p.objOf(val)] == r
+							}
+						}
+						if !found {
+							wrong = append(wrong, r)
+						}
+						continue
+					}
+					if r == "buf" && !wholeBuf {
+						continue
+					}
+					if roleOf[p.objOf(a)] != r {
+						wrong = append(wrong, r)
+					}
+				}
+				sort.Strings(wrong)
+				c.check(len(wrong) == 0, fmt.Sprintf("pad.call:fmtE#%d", ncall), call, "fmtE hands pad its own buffer, start, width and flags, role by role as fmtF does", "digits.fmtE calls pad with the wrong value for: "+strings.Join(wrong, ", ")+" (each must be fmtE's own parameter of that role; the start must be len(buf) as it was on entry)", props...)
+				return true
+			})
+		}
 	}
 	bind := func(vals map[string]peVal) []peVal {
 		out := make([]peVal, len(pps))
@@ -690,71 +756,160 @@ func rulePad(c *Ctx) {
 		}
 		return peSlice{arr: &peCells{cells}, n: len(text)}
 	}
-	for _, text := range []string{"7", "-12.5", "+3", " 3", "1e+10"} {
-		sign := text[0] == '-' || text[0] == '+' || text[0] == ' '
-		for _, width := range []int{0, 1, len(text), len(text) + 1, len(text) + 4, 20} {
-			for _, extra := range []int{0, 2, 32} {
-				for flags := 0; flags < 4 && bad == ""; flags++ {
-					padRight, padZero := flags&1 != 0, flags&2 != 0
-					if padRight && padZero {
-						continue // callers clear padZero when '-' is given (E10.flags)
-					}
-					ev := &peEval{p: p}
-					recv := pePtr{&peStruct{f: map[string]peVal{"neg": peBool{text[0] == '-'}}}}
-					args := bind(map[string]peVal{"buf": mk(text, len(text)+extra), "width": peInt{int64(width)}, "printSign": peBool{text[0] == '+'}, "padSign": peBool{text[0] == ' '}, "padRight": peBool{padRight}, "padZero": peBool{padZero}})
-					for _, a := range args {
-						if a == nil {
-							bad = "a parameter of pad is not fed from fmtF's buffer, width or flags"
+	// What is already in the buffer belongs to the caller (Decimal.Append appends): with a prefix the result
+	// must be the prefix followed by the padded number. A pad that is handed only the number is tried
+	// without a prefix.
+	prefixes := []string{""}
+	if wholeBuf {
+		prefixes = []string{"", "x=", "-0 +7"}
+	}
+	for _, prefix := range prefixes {
+		for _, text := range []string{"7", "-12.5", "+3", " 3", "1e+10"} {
+			sign := text[0] == '-' || text[0] == '+' || text[0] == ' '
+			for _, width := range []int{0, 1, len(text), len(text) + 1, len(text) + 4, 20} {
+				for _, extra := range []int{0, 2, 32} {
+					for flags := 0; flags < 4 && bad == ""; flags++ {
+						padRight, padZero := flags&1 != 0, flags&2 != 0
+						if padRight && padZero {
+							continue // callers clear padZero when '-' is given (E10.flags)
 						}
-					}
-					if bad != "" {
-						break
-					}
-					res, why := ev.run(fd, recv, args)
-					n++
-					pad := width - len(text)
-					want := text
-					if pad > 0 {
-						switch {
-						case padRight:
-							want = text + strings.Repeat(" ", pad)
-						case padZero && sign:
-							want = text[:1] + strings.Repeat("0", pad) + text[1:]
-						case padZero:
-							want = strings.Repeat("0", pad) + text
-						default:
-							want = strings.Repeat(" ", pad) + text
+						ev := &peEval{p: p}
+						recv := pePtr{&peStruct{f: map[string]peVal{"neg": peBool{text[0] == '-'}}}}
+						args := bind(map[string]peVal{"buf": mk(prefix+text, len(prefix)+len(text)+extra), "start": peInt{int64(len(prefix))}, "width": peInt{int64(width)}, "printSign": peBool{text[0] == '+'}, "padSign": peBool{text[0] == ' '}, "padRight": peBool{padRight}, "padZero": peBool{padZero}})
+						for _, a := range args {
+							if a == nil {
+								bad = "a parameter of pad is not fed from fmtF's buffer, width or flags"
+							}
 						}
-					}
-					got := "?"
-					if why == "" && len(res) == 1 {
-						if sl, ok := res[0].(peSlice); ok && sl.arr != nil {
-							b := make([]byte, 0, sl.n)
-							okBytes := true
-							for i := 0; i < sl.n; i++ {
-								var u uint64
-								for j := 0; j < 8; j++ {
-									switch sl.arr.cells[sl.off+i][j].k {
-									case '1':
-										u |= 1 << uint(j)
-									case '0':
-									default:
-										okBytes = false
+						if bad != "" {
+							break
+						}
+						res, why := ev.run(fd, recv, args)
+						n++
+						pad := width - len(text)
+						want := text
+						if pad > 0 {
+							switch {
+							case padRight:
+								want = text + strings.Repeat(" ", pad)
+							case padZero && sign:
+								want = text[:1] + strings.Repeat("0", pad) + text[1:]
+							case padZero:
+								want = strings.Repeat("0", pad) + text
+							default:
+								want = strings.Repeat(" ", pad) + text
+							}
+						}
+						got := "?"
+						if why == "" && len(res) == 1 {
+							if sl, ok := res[0].(peSlice); ok && sl.arr != nil {
+								b := make([]byte, 0, sl.n)
+								okBytes := true
+								for i := 0; i < sl.n; i++ {
+									var u uint64
+									for j := 0; j < 8; j++ {
+										switch sl.arr.cells[sl.off+i][j].k {
+										case '1':
+											u |= 1 << uint(j)
+										case '0':
+										default:
+											okBytes = false
+										}
 									}
+									b = append(b, byte(u))
 								}
-								b = append(b, byte(u))
-							}
-							if okBytes {
-								got = string(b)
+								if okBytes {
+									got = string(b)
+								}
 							}
 						}
-					}
-					if got != want {
-						bad = fmt.Sprintf("pad(%q with capacity %d, width %d, padRight=%v, padZero=%v) gives %q (%s), want %q", text, len(text)+extra, width, padRight, padZero, got, why, want)
+						want = prefix + want
+						if got != want {
+							bad = fmt.Sprintf("pad(%q with capacity %d, the number starting at %d, width %d, padRight=%v, padZero=%v) gives %q (%s), want %q", prefix+text, len(prefix)+len(text)+extra, len(prefix), width, padRight, padZero, got, why, want)
+						}
 					}
 				}
 			}
 		}
 	}
 	c.check(bad == "", "pad.text", fd, fmt.Sprintf("pad gives the padded text for every width, flag combination and buffer capacity tried, without touching a slice bound (%d evaluations)", n), "digits.pad: "+bad, props...)
+}
+
+// entryLenLocals returns the locals of fd that hold len(buf) as it was on entry: defined by `x := len(buf)`
+// in the function's top-level statement list before anything assigns buf, and never assigned again.
+func entryLenLocals(p *Prog, fd *ast.FuncDecl, buf types.Object) map[types.Object]bool {
+	out := map[types.Object]bool{}
+	if fd == nil || fd.Body == nil || buf == nil {
+		return out
+	}
+	assigns := func(n ast.Node, o types.Object) int {
+		k := 0
+		ast.Inspect(n, func(m ast.Node) bool {
+			switch s := m.(type) {
+			case *ast.AssignStmt:
+				for _, l := range s.Lhs {
+					if p.objOf(l) == o {
+						k++
+					}
+				}
+			case *ast.IncDecStmt:
+				if p.objOf(s.X) == o {
+					k++
+				}
+			case *ast.UnaryExpr:
+				if s.Op == token.AND && p.objOf(s.X) == o {
+					k++
+				}
+			}
+			return true
+		})
+		return k
+	}
+	isLenBuf := func(e ast.Expr) bool {
+		call, ok := ast.Unparen(e).(*ast.CallExpr)
+		if !ok || len(call.Args) != 1 {
+			return false
+		}
+		id, ok := ast.Unparen(call.Fun).(*ast.Ident)
+		if !ok {
+			return false
+		}
+		if b, ok := p.Info.Uses[id].(*types.Builtin); !ok || b.Name() != "len" {
+			return false
+		}
+		return p.objOf(call.Args[0]) == buf
+	}
+	for _, st := range fd.Body.List {
+		if assigns(st, buf) > 0 {
+			break
+		}
+		switch s := st.(type) {
+		case *ast.AssignStmt:
+			if len(s.Lhs) == len(s.Rhs) {
+				for i, l := range s.Lhs {
+					if o := p.objOf(l); o != nil && isLenBuf(s.Rhs[i]) {
+						out[o] = true
+					}
+				}
+			}
+		case *ast.DeclStmt:
+			if gd, ok := s.Decl.(*ast.GenDecl); ok {
+				for _, sp := range gd.Specs {
+					if vs, ok := sp.(*ast.ValueSpec); ok && len(vs.Names) == len(vs.Values) {
+						for i, nm := range vs.Names {
+							if o := p.Info.Defs[nm]; o != nil && isLenBuf(vs.Values[i]) {
+								out[o] = true
+							}
+						}
+					}
+				}
+			}
+		}
+	}
+	for o := range out {
+		if assigns(fd.Body, o) > 1 {
+			delete(out, o)
+		}
+	}
+	return out
 }
